@@ -117,6 +117,28 @@ Theorem C13_offset_regex_is_grid : forall o, off_match o = spec_offset o.
 Proof. exact off_match_spec. Qed.
 Print Assumptions C13_offset_regex_is_grid.
 
+(* ---- DTM ---- *)
+
+Definition C13_accept_DTM_statement : Prop := forall s, accepts (impl_DTM s) = spec_DTM s.
+
+(* refuted (finding F10): both defects of DT and TM are inherited *)
+Theorem C13_accept_DTM_refuted : ~ C13_accept_DTM_statement.
+Proof. intros H. specialize (H ("202011 1" : bs)). vm_compute in H. discriminate. Qed.
+Print Assumptions C13_accept_DTM_refuted.
+
+(* exactly: YYYY[MM[DD[HH[MM[SS[.S{1,4}]]]]]][+/-ZZZZ], plus the same with a blank-padded day, plus the
+   values in which the final offset occurs more than once and an accepted body is left when every copy is
+   removed *)
+Theorem C13_accept_DTM_partial : forall s,
+  accepts (impl_DTM s) = spec_DTM s || with_offset dtm_space_day s || offset_defect dtm_body_impl s.
+Proof. exact accept_DTM_exact. Qed.
+Print Assumptions C13_accept_DTM_partial.
+
+Theorem C13_roundtrip_DTM : forall s e,
+  impl_DTM s = Ok e -> spec_DTM s = true -> year_ge_1000 s = true -> e = s.
+Proof. exact roundtrip_DTM. Qed.
+Print Assumptions C13_roundtrip_DTM.
+
 (* ---- SI ---- *)
 
 Definition C13_accept_SI_statement : Prop :=
@@ -157,20 +179,72 @@ Proof.
 Qed.
 Print Assumptions C13_roundtrip_SI.
 
+(* ---- NM ---- *)
+
+Definition C13_accept_NM_statement : Prop :=
+  forall s, s <> [] -> (accepts (impl_NM true (Some 16%Z) s) = true -> spec_NM s = true).
+
+(* refuted (finding F10): Decimal() takes blanks, underscores, exponents, NaN, Infinity *)
+Theorem C13_accept_NM_refuted : ~ C13_accept_NM_statement.
+Proof.
+  intros H. specialize (H (" 1" : bs)). assert ([x20; x31] <> @nil byte) as N by discriminate.
+  specialize (H N). vm_compute in H. specialize (H eq_refl). discriminate.
+Qed.
+Print Assumptions C13_accept_NM_refuted.
+
+(* what holds for every string: on text made of digits, point and signs only, acceptance by Decimal() IS the HL7
+   grammar; every HL7 number is accepted (up to the length test); anything else that is accepted contains a
+   character outside the grammar's alphabet (the defect family) *)
+Theorem C13_accept_NM_partial : forall strict ml s,
+  s <> [] ->
+  accepts (impl_NM strict ml s) =
+    match decimal_parse s with
+    | Some d => negb (strict && too_long ml (decimal_str d))
+    | None => false
+    end /\
+  (forallb nm_clean s = true -> parsed s = spec_NM s) /\
+  (spec_NM s = true -> parsed s = true) /\
+  (parsed s = true -> spec_NM s = true \/ existsb (fun c => negb (nm_clean c)) s = true).
+Proof.
+  intros strict ml s Hs. repeat split.
+  - unfold impl_NM. destruct s; [congruence|]. cbn [nilb]. destruct (decimal_parse _); [|reflexivity].
+    destruct (strict && too_long ml (decimal_str d)); reflexivity.
+  - apply nm_clean_equiv.
+  - apply nm_complete.
+  - apply nm_sound.
+Qed.
+Print Assumptions C13_accept_NM_partial.
+
+Definition C13_roundtrip_NM_statement : Prop :=
+  forall s e, plain_NM s = true -> impl_NM true (Some 16%Z) s = Ok e -> e = s.
+
+(* refuted (finding F10): str(Decimal) switches to scientific notation below 1E-6 *)
+Theorem C13_roundtrip_NM_refuted : ~ C13_roundtrip_NM_statement.
+Proof.
+  intros H. specialize (H ("0.0000001" : bs) (unbs "1E-7") eq_refl eq_refl). discriminate.
+Qed.
+Print Assumptions C13_roundtrip_NM_refuted.
+
+(* a plain decimal that is not of the form 0.000000d... is re-encoded to the same text *)
+Theorem C13_roundtrip_NM : forall strict ml s e,
+  plain_NM s = true -> nm_small s = false -> impl_NM strict ml s = Ok e -> e = s.
+Proof. exact roundtrip_NM_plain. Qed.
+Print Assumptions C13_roundtrip_NM.
+
 (* ---- both levels, maximum length ---- *)
 
 (* TOLERANT never rejects; a value STRICT rejects with ValueError falls back to ST, whose encoding is
    escape(s) *)
 Theorem C13_tolerant_total : forall v rows name k ml e s,
   slookup v base_datatype_table = Some rows -> row_lookup name rows = Some (k, ml) ->
-  In k [KDT; KTM; KNM; KSI] ->
+  In k [KDT; KTM; KDTM; KNM; KSI] ->
   (exists t, impl_kind k false ml s = Ok t /\ factory v TOLERANT name e s = Ok (false, t)) \/
   (exists p, st_family rows = Some p /\ factory v STRICT name e s = Err PyValueError /\
              factory v TOLERANT name e s = Ok (true, escape p e s)).
 Proof.
   intros v rows name k ml e s Hv Hn Hk. apply factory_tolerant; auto using C13_params_st.
-  cbn in Hk. destruct Hk as [<-|[<-|[<-|[<-|[]]]]];
-    auto using kind_safe_DT, kind_safe_TM, kind_safe_NM, kind_safe_SI.
+  cbn in Hk. destruct Hk as [<-|[<-|[<-|[<-|[<-|[]]]]]];
+    auto using kind_safe_DT, kind_safe_TM, kind_safe_DTM, kind_safe_NM, kind_safe_SI.
 Qed.
 Print Assumptions C13_tolerant_total.
 
@@ -227,11 +301,21 @@ Proof. vm_compute. auto. Qed.
 Example C13_ex_TM_defect : impl_TM ("12+0100+0100" : bs) = Ok (unbs "12+0100") /\
                            offset_defect spec_time ("12+0100+0100" : bs) = true.
 Proof. vm_compute. auto. Qed.
+Example C13_ex_DTM : impl_DTM ("20240229235959.1234+0100" : bs) = Ok (unbs "20240229235959.1234+0100") /\
+                     spec_DTM ("20240229235959.1234+0100" : bs) = true /\
+                     impl_DTM ("202011 112+0100+0100" : bs) = Ok (unbs "2020110112+0100") /\
+                     offset_defect dtm_body_impl ("202011 112+0100+0100" : bs) = true.
+Proof. vm_compute. auto. Qed.
 Example C13_ex_SI : impl_SI true (Some 4%Z) ("0042" : bs) = Ok (unbs "42") /\
                     impl_SI true (Some 4%Z) ("12345" : bs) = Err (HL7 EMaxLengthReached) /\
                     impl_SI false (Some 4%Z) ("12345" : bs) = Ok (unbs "12345") /\
                     impl_SI true (Some 4%Z) ("-1" : bs) = Ok (unbs "-1").
 Proof. vm_compute. auto. Qed.
+Example C13_ex_NM : impl_NM true (Some 16%Z) ("-12.50" : bs) = Ok (unbs "-12.50") /\ plain_NM ("-12.50" : bs) = true /\
+                    nm_small ("-12.50" : bs) = false /\ nm_small ("0.0000001" : bs) = true /\
+                    impl_NM true (Some 16%Z) ("0.000001" : bs) = Ok (unbs "0.000001") /\
+                    impl_NM true (Some 16%Z) ("12345678901234567" : bs) = Err (HL7 EMaxLengthReached).
+Proof. vm_compute. auto 10. Qed.
 Example C13_ex_factory :
   factory "2.5" TOLERANT "DT" default_ec ("2020|13" : bs) = Ok (true, unbs "2020\F\13") /\
   factory "2.5" STRICT "DT" default_ec ("2020|13" : bs) = Err PyValueError.
